@@ -14,5 +14,6 @@ func TestC15(t *testing.T) { RunProfileTest(t, ProfileC15) }
 func TestC18(t *testing.T) { RunProfileTest(t, ProfileC18) }
 func TestC04(t *testing.T) { RunProfileTest(t, ProfileC04) }
 func TestC07Chain(t *testing.T) { RunProfileTest(t, ProfileC07) }
+func TestC05Chain(t *testing.T) { RunProfileTest(t, ProfileC05) }
 func TestC20(t *testing.T) { RunProfileTest(t, ProfileC20) }
 func TestC10(t *testing.T) { RunProfileTest(t, ProfileC10) }
